@@ -471,7 +471,9 @@ func (p *C17Project) Generate(build bool) C17Outcome {
 				break
 			}
 		}
-		if typeErr || !c17ReLoc.MatchString(first) {
+		// analyzer diagnostics are listed under a "# [pkg]" header; without it the lines are
+		// compile errors of a package the vetted ones depend on (models, hand-written package)
+		if typeErr || !c17ReLoc.MatchString(first) || !strings.Contains(out, "\n# [") {
 			// type / syntax error, or a compile error in a package the vetted one depends on
 			o.Kind = "build"
 		} else {
